@@ -50,10 +50,21 @@ struct LogRec {
     mismatch: u8,  // dealloc layout differed
     d_size: u64,   // layout passed to dealloc when it differed
     d_align: u32,
+    damage_off: u32, // 1 + offset of the first byte written after the block was freed (0 = none)
+    damage_n: u32,   // number of bytes that lost the poison value
 }
 
 const E0: Entry = Entry { ptr: 0, size: 0, align: 0, state: 0, log_epoch: 0, log_idx: 0 };
-const L0: LogRec = LogRec { ptr: 0, size: 0, align: 0, alloc_tid: 0, free_tid: 0, spec: 0, mismatch: 0, d_size: 0, d_align: 0 };
+const L0: LogRec = LogRec { ptr: 0, size: 0, align: 0, alloc_tid: 0, free_tid: 0, spec: 0, mismatch: 0, d_size: 0, d_align: 0, damage_off: 0, damage_n: 0 };
+
+#[derive(Clone, Copy)]
+struct Quar {
+    ptr: usize,
+    size: usize,
+    log_idx: u32,
+}
+const Q0: Quar = Quar { ptr: 0, size: 0, log_idx: u32::MAX };
+const POISON: u8 = 0xDF;
 
 struct Book {
     tables: [[Entry; TABLE_CAP]; 2],
@@ -72,6 +83,12 @@ struct Book {
     table_overflow: u32,
     old_freed: u32, // blocks allocated before this batch and freed during it
     null_allocs: u32,
+    // quarantine: blocks freed during a batch are poisoned and only handed back to Dlmalloc once every thread of
+    // the batch is gone; a poison byte that changed in between is a write into freed memory
+    quar: [Quar; LOG_CAP],
+    quar_len: usize,
+    quar_overflow: u32,
+    uaf_writes: u32,
 }
 
 struct Shared {
@@ -121,7 +138,7 @@ impl Book {
         let mut idx = u32::MAX;
         if self.log_len < LOG_CAP {
             let spec = if tid == MAIN_TID.load(SeqCst) { REC_SPEC.load(SeqCst) as u8 } else { 0 };
-            self.log[self.log_len] = LogRec { ptr: p as u64, size: l.size() as u64, align: l.align() as u32, alloc_tid: tid, free_tid: 0, spec, mismatch: 0, d_size: 0, d_align: 0 };
+            self.log[self.log_len] = LogRec { ptr: p as u64, size: l.size() as u64, align: l.align() as u32, alloc_tid: tid, free_tid: 0, spec, mismatch: 0, d_size: 0, d_align: 0, damage_off: 0, damage_n: 0 };
             idx = self.log_len as u32;
             self.log_len += 1;
         } else {
@@ -154,18 +171,18 @@ impl Book {
         }
         false
     }
-    /// returns true when the free may be forwarded to the real allocator
-    fn on_free(&mut self, p: usize, l: Layout, tid: u32) -> bool {
+    /// 0 = invalid free (not forwarded), 1 = forward to the real allocator now, 2 = quarantined (poison `size` bytes)
+    fn on_free(&mut self, p: usize, l: Layout, tid: u32) -> (u8, usize) {
         match self.find(p) {
             None => {
                 self.nonlive_free += 1;
-                false
+                (0, 0)
             }
             Some(s) => {
                 let e = self.tables[self.cur][s];
                 if e.state == 2 {
                     self.double_free += 1;
-                    return false;
+                    return (0, 0);
                 }
                 let mism = e.size != l.size() || e.align != l.align() as u32;
                 if mism {
@@ -186,7 +203,16 @@ impl Book {
                 self.tables[cur][s].state = 2;
                 self.live_count -= 1;
                 self.live_bytes -= e.size as u64;
-                true
+                if QUARANTINE_ON.load(SeqCst) != 0 {
+                    if self.quar_len < LOG_CAP {
+                        let li = if e.log_epoch == self.epoch { e.log_idx } else { u32::MAX };
+                        self.quar[self.quar_len] = Quar { ptr: p, size: e.size, log_idx: li };
+                        self.quar_len += 1;
+                        return (2, e.size);
+                    }
+                    self.quar_overflow += 1;
+                }
+                (1, 0)
             }
         }
     }
@@ -201,6 +227,8 @@ impl Book {
         self.table_overflow = 0;
         self.old_freed = 0;
         self.null_allocs = 0;
+        self.quar_overflow = 0;
+        self.uaf_writes = 0;
         // tombstones (memory of freed pointers, to tell a double free from a wild free) are only needed within a
         // batch: rebuild the table with the live entries only. Runs with the lock held, between batches.
         let (cur, other) = (self.cur, 1 - self.cur);
@@ -228,10 +256,43 @@ unsafe impl GlobalAlloc for Counting {
     unsafe fn dealloc(&self, p: *mut u8, l: Layout) {
         let tid = gettid();
         let mut g = self.m.lock();
-        if (*self.book.get()).on_free(p as usize, l, tid) {
-            g.dl.free(p);
+        match (*self.book.get()).on_free(p as usize, l, tid) {
+            (1, _) => g.dl.free(p),
+            (2, n) => core::ptr::write_bytes(p, POISON, n),
+            _ => {}
         }
     }
+}
+
+static QUARANTINE_ON: AtomicU32 = AtomicU32::new(0);
+
+/// Checks the poison of every quarantined block and hands the blocks back to Dlmalloc. Called by the main thread
+/// once every thread of the batch is gone.
+fn quarantine_flush() {
+    let mut g = A.m.lock();
+    let b = unsafe { &mut *A.book.get() };
+    for k in 0..b.quar_len {
+        let q = b.quar[k];
+        let mut first = 0u32;
+        let mut n = 0u32;
+        for o in 0..q.size {
+            if unsafe { core::ptr::read_volatile((q.ptr as *const u8).add(o)) } != POISON {
+                if n == 0 {
+                    first = o as u32 + 1;
+                }
+                n += 1;
+            }
+        }
+        if n != 0 {
+            b.uaf_writes += 1;
+            if q.log_idx != u32::MAX {
+                b.log[q.log_idx as usize].damage_off = first;
+                b.log[q.log_idx as usize].damage_n = n;
+            }
+        }
+        unsafe { g.dl.free(q.ptr as *mut u8) };
+    }
+    b.quar_len = 0;
 }
 
 #[global_allocator]
@@ -253,6 +314,10 @@ static A: Counting = Counting {
         table_overflow: 0,
         old_freed: 0,
         null_allocs: 0,
+        quar: [Q0; LOG_CAP],
+        quar_len: 0,
+        quar_overflow: 0,
+        uaf_writes: 0,
     }),
 };
 
@@ -918,6 +983,7 @@ fn run_batch(specs: &[Spec], pipe: (usize, usize)) {
         (b.live_count, b.live_bytes)
     });
 
+    QUARANTINE_ON.store(1, SeqCst);
     const NONE_H: Option<H> = None;
     let mut handles: [Option<H>; MAXN] = [NONE_H; MAXN];
     const PS0: PerSpec = PerSpec { spawn_errno: 0, join_class: 0, vhash: 0, vlen: 0, buf_join: 0, buf: 0 };
@@ -1003,10 +1069,14 @@ fn run_batch(specs: &[Spec], pipe: (usize, usize)) {
     let mut buf_drain = [0u64; MAXN];
     for i in 0..n {
         let bl = specs[i].buflen as usize;
+        buf_drain[i] = hash_buf(ps[i].buf, if ps[i].buf == 0 { 0 } else { bl });
         if ps[i].buf != 0 {
-            buf_drain[i] = hash_buf(ps[i].buf, bl);
             unsafe { alloc::alloc::dealloc(ps[i].buf as *mut u8, Layout::from_size_align_unchecked(bl, 1)) };
         }
+    }
+    QUARANTINE_ON.store(0, SeqCst);
+    if drained == 1 {
+        quarantine_flush();
     }
     let mut canary = [0u8; MAXN];
     if drained == 1 {
@@ -1043,6 +1113,8 @@ fn run_batch(specs: &[Spec], pipe: (usize, usize)) {
     o32(b.table_overflow);
     o32(b.old_freed);
     o32(b.null_allocs);
+    o32(b.uaf_writes);
+    o32(b.quar_overflow);
     for i in 0..n {
         o32(ps[i].spawn_errno as u32);
         o8(ps[i].join_class);
@@ -1072,5 +1144,7 @@ fn run_batch(specs: &[Spec], pipe: (usize, usize)) {
         o8(0);
         o64(r.d_size);
         o32(r.d_align);
+        o32(r.damage_off);
+        o32(r.damage_n);
     }
 }
